@@ -3,26 +3,34 @@
 
    g : the resolved dependency graph (entry v = Dependencies() of target v, any order, duplicates
    and self references allowed); order : the order in which Check iterates the targets
-   (AllTargets()).  wf g: every dependency is a target of the graph.  detect = cycleDetector.Check
-   (Model/C06.v); Fuel is the model's out-of-fuel value. *)
-From PlzV Require Import Base.Harness Model.C06 Proof.C06.
+   (AllTargets()).  wf g: every dependency is a target of the graph.  nodes g: the targets 0..|g|-1.
+   is_cycle g c: c is non-empty, each element depends on the next, the last on the first.
+   has_cycle g: some c is a cycle of g.  Fuel is the model's out-of-fuel value. *)
+From PlzV Require Import Base.Harness Model.C06 Model.C06_Skel Proof.C06 Proof.C06_Skel.
 From Coq Require Import Permutation Lia.
 
+(* src_detect (Model/C06_Skel.v) = the control skeleton of Check and of its visit closure as gotrans
+   regenerates it from src/core/cycle_detector.go on every run (Gen/CycleVisit.v), run by an
+   interpreter; detect (Model/C06.v) = the hand model the correspondence harness compares with the
+   implementation on every run. *)
 Definition C06_statement : Prop :=
+  (* the checker this statement is about is the function that is tied to the implementation *)
+  (forall g order, src_detect g order = detect g order)
+  /\
   (* every reported cycle is a genuine cycle: each listed target depends on the next and the last
      depends on the first - for every graph and every iteration order, no side condition *)
-  (forall g order c, detect g order = Found c -> is_cycle g c)
+  (forall g order c, src_detect g order = Found c -> is_cycle g c)
   /\
   (forall g order, wf g -> Permutation order (nodes g) ->
      (* the recursion of the model is never cut short *)
-     detect g order <> Fuel
+     src_detect g order <> Fuel
      (* whenever the graph contains a cycle, one is reported (and it is genuine) *)
-     /\ (has_cycle g -> exists c, detect g order = Found c /\ is_cycle g c)
+     /\ (has_cycle g -> exists c, src_detect g order = Found c /\ is_cycle g c)
      (* an acyclic graph is never reported as cyclic *)
-     /\ (~ has_cycle g -> detect g order = Clean)).
+     /\ (~ has_cycle g -> src_detect g order = Clean)).
 
 Theorem C06_full : C06_statement.
-Proof. exact detect_correct. Qed.
+Proof. exact src_detect_correct. Qed.
 Print Assumptions C06_full.
 
 (* Non-vacuity.  A cycle (4 -> 2 -> 4) that is reached only after an acyclic part (3, then 1) has been
@@ -30,8 +38,8 @@ Print Assumptions C06_full.
 Example C06_nonvacuous_cyclic :
   let g := [[1; 2]; [3]; [3; 4]; []; [2]] in
   wf g /\ Permutation [0; 1; 2; 3; 4] (nodes g) /\ has_cycle g
-  /\ detect g [0; 1; 2; 3; 4] = Found [4; 2]
-  /\ detect g [3; 4; 0; 2; 1] = Found [2; 4].
+  /\ src_detect g [0; 1; 2; 3; 4] = Found [4; 2]
+  /\ src_detect g [3; 4; 0; 2; 1] = Found [2; 4].
 Proof.
   cbn zeta. split; [| split; [| split; [| split]]].
   - intros v d. do 5 (destruct v as [|v]; [cbn; intuition lia |]). destruct v; intros [].
@@ -43,7 +51,7 @@ Qed.
 
 Example C06_nonvacuous_acyclic :
   let g := [[1; 2]; [3]; [3; 4]; []; []] in
-  wf g /\ Permutation [4; 0; 3; 2; 1] (nodes g) /\ ~ has_cycle g /\ detect g [4; 0; 3; 2; 1] = Clean.
+  wf g /\ Permutation [4; 0; 3; 2; 1] (nodes g) /\ ~ has_cycle g /\ src_detect g [4; 0; 3; 2; 1] = Clean.
 Proof.
   cbn zeta.
   assert (Hwf : wf [[1; 2]; [3]; [3; 4]; []; []]).
